@@ -2,7 +2,11 @@ package capnp
 
 // C14: stream framing and decode bounds. C04 H-frame (Marshal/Unmarshal round trip) lives here too.
 
-import "io"
+import (
+	"io"
+
+	"capnproto.org/go/capnp/v3/internal/packed"
+)
 
 // vReader is an io.Reader over symbolic bytes. chunked=false: returns as much as fits (one Read per
 // ReadFull); chunked=true: each Read nondeterministically returns 1 byte or everything that fits.
@@ -454,4 +458,58 @@ type vBufW struct{ b []byte }
 func (w *vBufW) Write(p []byte) (int, error) {
 	w.b = append(w.b, p...)
 	return len(p), nil
+}
+
+// UnmarshalPacked on a packed frame cut at ANY byte: it reports an error whenever the one-shot
+// unpacker does (a packed message completed with invented zero bytes is never accepted), and a
+// complete frame gives the segments back.
+func VH_C14_unmarshal_packed_cut() {
+	w := vNondetBytes(8)
+	mask := byte(0xff)
+	switch vNondetU8() % 4 {
+	case 1:
+		mask = 0x00
+	case 2:
+		mask = 0x81
+	case 3:
+		mask = 0x7f
+	}
+	for j := 0; j < 8; j++ {
+		if mask&(1<<uint(j)) != 0 {
+			vAssume(w[j] != 0)
+		} else {
+			vAssume(w[j] == 0)
+			w[j] = 0
+		}
+	}
+	m := &Message{Arena: SingleSegment(w)}
+	p, err := m.MarshalPacked()
+	vAssume(err == nil)
+	c := vNondetInt()
+	vAssume(c >= 0 && c <= len(p))
+	c = vConcrete(c, len(p)+1)
+	vReach("cut")
+	g, err := UnmarshalPacked(p[:c:c])
+	_, uerr := packedUnpackRef(p[:c])
+	if uerr {
+		vAssert(err != nil, "C13.unmarshalpacked.truncated-stream-is-an-error")
+	}
+	if c == len(p) {
+		vAssert(err == nil, "C13.unmarshalpacked.complete-frame-accepted")
+		if err == nil {
+			s, serr := g.Segment(0)
+			vAssert(serr == nil && len(s.data) == 8, "C13.unmarshalpacked.segment")
+			if serr == nil && len(s.data) == 8 {
+				j := vNondetInt()
+				vAssume(j >= 0 && j < 8)
+				vAssert(s.data[j] == w[j], "C13.unmarshalpacked.bytes")
+			}
+		}
+	}
+}
+
+// packedUnpackRef: does the one-shot unpacker reject the stream?
+func packedUnpackRef(p []byte) ([]byte, bool) {
+	b, err := packed.Unpack(nil, p)
+	return b, err != nil
 }
